@@ -87,3 +87,24 @@ Definition recover_prog (crc H : bytes -> Z) (p : params) (base : Z) (logb : byt
     let swap := match e with ScanCorrupt => RRename RfRtmp RfLog | _ => RRemove RfRtmp end in
     Ok (copy_part crc v (map snd recs) ++ [swap] ++ index_part p base idxb (scan_items H p recs))
   end.
+
+(* the positions at which records written back to back from pos land *)
+Fixpoint placed_at (v : ver) (pos : Z) (ms : list msg) : list (Z * msg) :=
+  match ms with [] => [] | m :: r => (pos, m) :: placed_at v (pos + rec_size v m) r end.
+
+(* Segment.Migrate of a log file that parses completely: the index is removed first, the records are re-encoded into
+   <log>.migrate (RfRtmp plays that file), which is renamed over the log, then index.Write of the index derived from the
+   NEW positions.  Nothing happens when the file already is in the target version. *)
+Definition migrate_prog (crc H : bytes -> Z) (p : params) (base : Z) (mv iv : ver) (logb : bytes) : res (list rstep) :=
+  do v <- log_version logb base;
+  if ver_eqb v mv then Ok []
+  else
+    let '(recs, _, e) := scan_log crc (scan_fuel_of logb) v logb (hdr_size v) in
+    match e with
+    | ScanEOF =>
+      let ms := map snd recs in
+      Ok ([RRemove RfIdx] ++ copy_part crc mv ms ++ [RRename RfRtmp RfLog]
+            ++ index_write_prog p iv (scan_items H p (placed_at mv (hdr_size mv) ms)))
+    | ScanCorrupt => Err ELogCorrupted
+    | ScanFuel => Err EOutOfFuel
+    end.
